@@ -8,10 +8,12 @@ python3 - <<'PY'
 import sys
 sys.path.insert(0, "lib")
 import vcheck
-ok, out, _ = vcheck.build_harness()
-print(out[-2000:])
-if not ok:
-    sys.exit(1)
+specs = vcheck.all_specs()          # claimed properties only (props/C*.json); work in progress is not built
+for pkg in sorted({s["harness_pkg"] for s in specs}):
+    ok, out, _ = vcheck.build_harness({"harness_pkg": pkg, "harness_bin": "x"})
+    print(out[-2000:])
+    if not ok:
+        sys.exit(1)
 # release-profile harnesses and real tool binaries that some checks need
 bins = set()
 for s in vcheck.all_specs():
@@ -31,7 +33,7 @@ for s in vcheck.all_specs():
         okt, outt, ch = vcheck.gen_tables(s, vh)
         if not okt:
             print(outt[-2000:]); sys.exit(1)
-okc, outc, first = vcheck.coq_build([], timeout=3000)
+okc, outc, first = vcheck.coq_build(sorted({t for s in specs for t in s["coq_targets"]}), timeout=3000)
 print(outc[-3000:])
 sys.exit(0 if okc else 1)
 PY
